@@ -39,6 +39,30 @@ def module_names(mod_tree: ast.Module) -> set[str]:
     return out
 
 
+def _canon_if(node: ast.If):
+    """(test, body, orelse) with a negated test of an if/else turned round (elif chains are left alone)."""
+    t, b, o = node.test, node.body, node.orelse
+    if o and not (len(o) == 1 and isinstance(o[0], ast.If)) and isinstance(t, ast.UnaryOp) and isinstance(t.op, ast.Not):
+        return t.operand, o, b
+    return t, b, o
+
+
+_MIRROR = {ast.Eq: ast.Eq, ast.NotEq: ast.NotEq, ast.Lt: ast.Gt, ast.Gt: ast.Lt, ast.LtE: ast.GtE, ast.GtE: ast.LtE}
+
+
+def _canon_aug(node):
+    """AugAssign on a name / attribute -> the equivalent Assign."""
+    if isinstance(node, ast.AugAssign) and isinstance(node.target, (ast.Name, ast.Attribute)):
+        import copy
+
+        load = copy.deepcopy(node.target)
+        for x in ast.walk(load):
+            if hasattr(x, "ctx"):
+                x.ctx = ast.Load()
+        return ast.Assign(targets=[node.target], value=ast.BinOp(left=load, op=node.op, right=node.value), type_comment=None)
+    return node
+
+
 class PM:
     def __init__(self, p, fi, fixed: set[str] = frozenset()):
         self.fi = fi
@@ -65,7 +89,31 @@ class PM:
                 env[pat.id] = tgt.id
                 return True
             return isinstance(tgt, ast.Name) and tgt.id == pat.id
+        if isinstance(pat, (ast.AugAssign, ast.Assign)) and isinstance(tgt, (ast.AugAssign, ast.Assign)) and type(pat) is not type(tgt):
+            # `x += e` is `x = x + e`
+            pat, tgt = _canon_aug(pat), _canon_aug(tgt)
         if type(pat) is not type(tgt):
+            return False
+        if isinstance(pat, ast.If) and (pat.orelse or tgt.orelse):
+            # `if not c: B else: A` is `if c: A else: B`: compare both in the form whose test is not a negation
+            pt, pb, po = _canon_if(pat)
+            tt, tb, to = _canon_if(tgt)
+            e2 = dict(env)
+            if self._m(pt, tt, e2) and self._mlist(pb, tb, e2) and (not po or self._mlist(po, to, e2)):
+                env.clear()
+                env.update(e2)
+                return True
+            return False
+        if isinstance(pat, ast.Compare) and len(pat.ops) == 1 and len(tgt.ops) == 1 and type(pat.ops[0]) in _MIRROR:
+            # `a < b` is `b > a`: try as written, then the target mirrored
+            e2 = dict(env)
+            if type(pat.ops[0]) is type(tgt.ops[0]) and self._m(pat.left, tgt.left, e2) and self._m(pat.comparators[0], tgt.comparators[0], e2):
+                env.clear(); env.update(e2)
+                return True
+            e2 = dict(env)
+            if _MIRROR[type(pat.ops[0])] is type(tgt.ops[0]) and self._m(pat.left, tgt.comparators[0], e2) and self._m(pat.comparators[0], tgt.left, e2):
+                env.clear(); env.update(e2)
+                return True
             return False
         if isinstance(pat, ast.Constant):
             return pat.value == tgt.value and type(pat.value) is type(tgt.value)
